@@ -277,6 +277,13 @@ def _initial_values(ctx: Ctx, helpers):
     at = Atomizer(model, helpers, g)
     stores = [n for n in cfg.nodes if n.kind == "stmt"
               and any(A.dotted(t) == f"self.{SEQ}" for t in n.stores())]
+    # a store under `p is not None` for an optional argument p that no call in the package supplies
+    # (a start value for tests, a persisted counter) is not one of the package's own two ways of
+    # starting a generator
+    from ..effects import effects_of as _eo
+    E0 = _eo(model)
+    stores = [n for n in stores if not any(pol and E0._dead_by_default(t_, init)
+                                           for t_, pol in A.enclosing_tests(init.node, n.ast))]
     seeded, plain = [], []
     for s in stores:
         guarded = any(at.guarded(cfg, s, lambda a, p=p: True if (a.subject == p and a.op == "truthy") or
